@@ -7,7 +7,7 @@ LEVEL = 'exploration'
 MECHANISMS = [('cgsmiles.resolve', 'compatible'), ('cgsmiles.resolve', 'match_bonding_descriptors'), ('cgsmiles.resolve', 'MoleculeResolver.edges_from_bonding_descrpt')]
 REQUIRED_COUNTERS = ['resolve_calls_observed']
 ASSUMPTIONS = ['compatibility relation restated independently in vmon/contracts.py compatible_ref', 'the count per coarse pair is checked for atoms with a single membership (a squashed atom belongs to both sides)', 'exactly-that-many is enforced only on unique-label workloads (through the C01/C10/C06 isomorphism oracles)']
-RULE = 'mixed resolver workload: unique-label cut molecules (G-mol x G-cut x G-render, all three constructors), shared-atom cases, virtual nodes / zero-order edges, 2-4-level hierarchies (atomistic and coarse last level), coarse cut graphs (a quarter with bead names like NA+, CL-, C1', N-ter), periodic copolymers (the same ordered name pair on several base edges, optionally one surplus base-edge order), and G-ambig polymer inputs (unlabelled $, homopolymers, surplus descriptors, multiplied units, rings, both matching conventions, atomistic and coarse). After EVERY resolve() call every fine bond whose endpoints share no coarse node must: lie across a base edge of order >= 1, carry a descriptor pair that is compatible under the convention in force (independent restatement), have both annotated orders equal and equal to the bond order (1.5 allowed between two aromatic atoms), have endpoints whose templates carried exactly these descriptors, not use a descriptor more often than it was written on that atom, and not exceed the base edge order per coarse pair. distinct = (kind, feature set, #heavy, #fragments); non-trivial = resolve() completed.'
+RULE = 'mixed resolver workload: unique-label cut molecules (G-mol x G-cut x G-render, all three constructors), shared-atom cases, virtual nodes / zero-order edges, 2-4-level hierarchies (atomistic and coarse last level), coarse cut graphs (a quarter with bead names like NA+, CL-, C1-prime, N-ter), periodic copolymers (the same ordered name pair on several base edges, optionally one surplus base-edge order), and G-ambig polymer inputs (unlabelled $, homopolymers, surplus descriptors, multiplied units, rings, both matching conventions, atomistic and coarse). After EVERY resolve() call every fine bond whose endpoints share no coarse node must: lie across a base edge of order >= 1, carry a descriptor pair that is compatible under the convention in force (independent restatement), have both annotated orders equal and equal to the bond order (1.5 allowed between two aromatic atoms), have endpoints whose templates carried exactly these descriptors, not use a descriptor more often than it was written on that atom, and not exceed the base edge order per coarse pair. distinct = (kind, feature set, #heavy, #fragments); non-trivial = resolve() completed.'
 
 
 def setup():
